@@ -353,6 +353,31 @@ func TestVerifSchedules(t *testing.T) {
 				cs.Violation("C07", "sched.put-failed", fmt.Sprintf("upload %s failed under schedule [%s]", a.name, strings.Join(sched, ",")), cs.CaseOps())
 			}
 		}
+		// an upload acknowledged after the last corruption of the key's file, with no space pressure,
+		// must be found by a read that starts after everything has finished
+		if max == 1<<30 {
+			lastCommit, lastCorrupt := -1, -1
+			for i, tok := range sched {
+				if strings.HasPrefix(tok, "x") {
+					lastCorrupt = i
+				}
+				if strings.HasPrefix(tok, "p") && strings.HasSuffix(tok, "b") {
+					pi, _ := strconv.Atoi(tok[1 : len(tok)-1])
+					if pi < len(puts) && puts[pi].hash == puts[0].hash && actors[pi].result == "ok" {
+						lastCommit = i
+					}
+				}
+			}
+			if lastCommit > lastCorrupt {
+				rc, _, err := c.Get(ctx, getKind, puts[0].hash, -1, 0)
+				if rc != nil {
+					_ = rc.Close()
+				}
+				if err != nil || rc == nil {
+					cs.Violation("C07", "sched.acked-lost", fmt.Sprintf("an upload of the key was acknowledged (step %d) after the last corruption of its file (step %d) and nothing was evicted, but a later read misses; schedule [%s]", lastCommit, lastCorrupt, strings.Join(sched, ",")), cs.CaseOps())
+				}
+			}
+		}
 		c03, c04 := vCheckQuiescent(c)
 		if c03 != "" {
 			cs.Violation("C07", "sched.accounting", fmt.Sprintf("%s under schedule [%s]", c03, strings.Join(sched, ",")), cs.CaseOps())
